@@ -69,7 +69,9 @@ def drive_loop(cr, cu, lines, sub, mb, heuristic='MI-numba-randomized'):
     """real estimate_importances_minibatches over a list of lines with a recording batch scorer; returns the observations"""
     import pandas as pd
     from outrank.core_utils import BatchRankingSummary
-    rec = {'batches': [], 'ckpt': [], 'trip': []}
+    rec = {'batches': [], 'ckpt': [], 'trip': [], 'sel': []}
+    cr.GLOBAL_PRIOR_COMB_COUNTS.clear()
+    import types
     d = tempfile.mkdtemp(prefix='c08-', dir='/var/tmp')
     cwd = os.getcwd()
 
@@ -78,6 +80,8 @@ def drive_loop(cr, cu, lines, sub, mb, heuristic='MI-numba-randomized'):
         if k > 0:
             rec['ckpt'].append(pd.read_csv('ranking_checkpoint_tmp.tsv', sep='\t', index_col=0) if os.path.exists('ranking_checkpoint_tmp.tsv') else None)
         rec['batches'].append([list(r) for r in line_tmp_storage])
+        # like the real batch scorer, select this batch's combinations through the fair sampler (2 candidates, cap 1)
+        rec['sel'].append(list(cr.prior_combinations_sample([('fa', 'label'), ('fb', 'label')], types.SimpleNamespace(combination_number_upper_bound=1))))
         s = SCORES[k % len(SCORES)]
         trip = [('fa', 'label', s), ('label', 'fa', s), ('fb', 'label', 20.0 - s), ('label', 'fb', 20.0 - s)]
         if k % 2 == 1:
@@ -104,6 +108,7 @@ def drive_loop(cr, cu, lines, sub, mb, heuristic='MI-numba-randomized'):
         else:
             cr.open = saved[2]
     rec['grouped'] = out[1]
+    rec['counts'] = dict(out[7])
     rec['log'] = log.msgs
     return rec
 
@@ -149,6 +154,10 @@ def check_loop(rec, kinds, sub, mb, tail_min=1024):
     g = df_table(rec['grouped'])
     if (g or None) != (med_table(allt) or None):
         probs.append(f'returned aggregation {g} vs medians {med_table(allt)}')
+    from collections import Counter
+    recount = Counter(c for b in rec['sel'] for c in b)
+    if {k: v for k, v in rec['counts'].items() if v} != dict(recount):
+        probs.append(f'returned evaluation counts {rec["counts"]} vs number of batches in which each combination was selected {dict(recount)}')
     det = [m for m in rec['log'] if m.startswith('Detected ')]
     cnt = int(det[0].split()[1]) if det else 0
     if cnt != len(bad):
